@@ -114,7 +114,8 @@ def count_scenarios(files):
 def run_group(prop, tier, seed, t0, families, module, cfg, prefixes, mcs, need_hits, assume, rule,
               n_quick=150, n_thorough=3000):
     """Generic check body for a daemon-level property.
-    families: list of (family name, extra args). mcs: list of (module, cfg) TLC model-checking runs."""
+    families: list of (family name, extra args[, module, cfg[, n_quick, n_thorough]]).
+    mcs: list of (module, cfg) TLC model-checking runs."""
     v = core.Verdict(prop)
     mc_res = []
     for (m, c) in mcs:
@@ -124,9 +125,12 @@ def run_group(prop, tier, seed, t0, families, module, cfg, prefixes, mcs, need_h
             v.violation(prop + ".model", {"module": m, "cfg": c}, {"tlc_error": r.get("error", "")[:2000], "cmd": r["cmd"]})
     n = n_thorough if tier == "thorough" else n_quick
     all_files, total, hits, foreign = [], 0, set(), {}
-    for (family, extra) in families:
-        files, _ = drive(family, prop, seed, tier, n, 8 if tier == "thorough" else 4, extra)
-        results = validate(module, cfg, files, prop.lower() + "-" + family)
+    for fam in families:
+        family, extra = fam[0], fam[1]
+        fmodule, fcfg = (fam[2], fam[3]) if len(fam) > 3 else (module, cfg)
+        fn = (fam[5] if tier == "thorough" else fam[4]) if len(fam) > 5 else n
+        files, _ = drive(family, prop, seed, tier, fn, 8 if tier == "thorough" else 4, extra)
+        results = validate(fmodule, fcfg, files, prop.lower() + "-" + family)
         tot, h, fo = collect(prop, prefixes, results, files, v, {"family": family, "seed": seed, "tier": tier})
         total += tot
         hits |= h
@@ -158,10 +162,16 @@ def run_group(prop, tier, seed, t0, families, module, cfg, prefixes, mcs, need_h
     return rc
 
 
+FAMILY_MODULE = {"respond": ("TraceRespond", "TraceRespond.cfg"), "browse": ("TraceBrowse", "TraceBrowse.cfg"),
+                 "resolve": ("TraceBrowse", "TraceBrowse.cfg"), "flood": ("TraceBrowse", "TraceBrowse.cfg")}
+
+
 def replay_group(path, module, cfg, prefixes, prop):
     with open(path) as f:
         rp = json.load(f)
     c = rp["case"]
+    if c.get("args", {}).get("family") in FAMILY_MODULE:
+        module, cfg = FAMILY_MODULE[c["args"]["family"]]
     v = core.Verdict(prop)
     sid = c["scenario"]["id"]
     a = c["args"]
